@@ -211,7 +211,7 @@ def run(pid, tier, seed):
         tbl = classes.ClassTable()
         pd = programs.ProgramDir("mtv_c17p_")
         try:
-            for pi in range(3 if quick else 25):
+            for pi in range(3 if quick else 150):
                 name = "c17prog_%d_%d" % (seed % 1000, pi)
                 src, funcs = programs.gen_module(chk.rng, name)
                 typer = lambda v: sexp.dumps(tyconv.canon(tyconv.ty_to_tree(get_type(v, 0), tbl)))
